@@ -25,6 +25,19 @@ relative statement reaches is never computed by the harness: it is `importlib.ut
 package of the importing file. The importing file is a followed import, or the target itself
 (`python -m rattr np/q1/q2/__init__.py`).
 
+WHERE an import statement stands is part of the case too: at the top of the file or in any module-level block
+position — the body / elif / else of an `if`, body / handlers / else / finally of a `try`, a `with`, body / else of
+`for` and `while`, nested up to four deep — in the target and in followed modules (block corpus: every position x
+target / followed import, in-process and through the CLI; half of the random projects). Python executes an import
+wherever it stands at module level, so every one of them is an edge for the oracle; the order in which
+RootContextBuilder registers them (try: handlers last) is the Lean model `Blocks.regL`. Statement classes the
+builder has no visit_ method for (`match`, `try/except*`, a class body) are generated as well (known findings).
+WHICH pyproject.toml applies is part of the case: nested project roots (`nested:*` channels: an inner
+pyproject.toml with [tool.rattr] at the working directory, its parent or grand-parent, below a `.git` / `.hg` /
+`.svn` / `.git` file / another project's pyproject.toml with a different level and the pattern '.*'; and the
+`nested-none:*` layouts whose nearest root has no [tool.rattr] table) — the nearest root wins (Lean
+`Cli.findPyproject`, theorems `C12_nearest_root_wins`, `C12_outer_roots_irrelevant`).
+
 Implementation side: the real `parse_and_analyse_file()` (+ `generate_results_from_ir`) in-process,
 with `FileAnalyser.analyse` wrapped to count analyses; a sample is re-run through the real CLI.
 Model side: Lean `Imports.bfs` on the module graph whose per-module facts (resolved name, origin,
@@ -147,6 +160,175 @@ def closure(imports_of, target_imps, permitted):
     return reach
 
 
+# ------------------------------------------------------------------ module-level block positions
+#
+# An import statement need not stand at the top of a file: Python executes it wherever it stands at module
+# level. A file's statements are a list of ITEMS: an int (index of an import statement of the file) or a
+# block node {"k": kind, "parts": [[label, [items]], ...]}:
+#   if      body, elif*, else?          for / while   body, else?          with   body
+#   try     body, except*, else?, finally?   (an except or a finally; else only with an except)
+#   trystar body, except+, else?, finally?   (`except*`)      match  case+      class  body
+# DESCENDED kinds are those RootContextBuilder has a visit_ method for (Tie A `tieA_block_visitors`);
+# the harness' mirror of the ORDER in which rattr registers (try: body, else, finally, handlers) is
+# cross-checked with the Lean model `Blocks.regL` on every case; the ORACLE's edges are all written ones.
+BLOCK_PARTS = {"if": ("body", "elif*", "else?"), "for": ("body", "else?"), "while": ("body", "else?"),
+               "with": ("body",), "try": ("body", "except*", "else?", "finally?"),
+               "trystar": ("body", "except+", "else?", "finally?"), "match": ("case+",), "class": ("body",)}
+DESCENDED_KINDS = ("if", "for", "while", "with", "try")
+OPAQUE_KINDS = {"trystar": "try-star", "match": "match", "class": "class-body"}
+CONDS = ["__debug__", "len('ab') == 2", "not __debug__", "0", "1"]
+
+
+def render_tree(items, stmts, ind=0, ctr=None):
+    """Source lines of a list of items."""
+    ctr = ctr if ctr is not None else [0]
+    pad = "    " * ind
+    out = []
+
+    def block(head, sub):
+        out.append(pad + head)
+        out.extend(render_tree(sub, stmts, ind + 1, ctr) or [pad + "    pass"])
+
+    for it in items:
+        if isinstance(it, int):
+            out.append(pad + stmts[it])
+            continue
+        ctr[0] += 1
+        k, n = it["k"], ctr[0]
+        if k == "match":
+            out.append(pad + f"match len('ab') + {n}:")
+            for i, (label, sub) in enumerate(it["parts"]):
+                last = i == len(it["parts"]) - 1
+                out.append(pad + "    " + ("case _:" if last else f"case {i}:"))
+                out.extend(render_tree(sub, stmts, ind + 2, ctr) or [pad + "        pass"])
+            continue
+        for i, (label, sub) in enumerate(it["parts"]):
+            cond = CONDS[(n + i) % len(CONDS)]
+            exc = ["except ImportError:", "except (KeyError, OSError) as _e:", "except Exception:"][i % 3]
+            head = {("if", "body"): f"if {cond}:", ("if", "elif"): f"elif {cond}:", ("if", "else"): "else:",
+                    ("for", "body"): f"for _i{n} in range(2):", ("for", "else"): "else:",
+                    ("while", "body"): "while 0:", ("while", "else"): "else:",
+                    ("with", "body"): f"with open(__file__) as _fh{n}:",
+                    ("try", "body"): "try:", ("try", "except"): exc, ("try", "else"): "else:",
+                    ("try", "finally"): "finally:",
+                    ("trystar", "body"): "try:", ("trystar", "except"): exc.replace("except", "except*"),
+                    ("trystar", "else"): "else:", ("trystar", "finally"): "finally:",
+                    ("class", "body"): f"class _K{n}:"}[(k, label)]
+            block(head, sub)
+    return out
+
+
+def written_order(items):
+    """Every statement of the tree, in source order."""
+    return [j for it in items for j in ([it] if isinstance(it, int) else
+                                        [x for _, sub in it["parts"] for x in written_order(sub)])]
+
+
+def registered_order(items):
+    """The statements RootContextBuilder.register_stmts reaches, in ITS order (harness mirror of the Lean
+    model `Blocks.regL`, cross-checked per case): if / for / while / with: the parts in order; try: body,
+    else, finally, then the handlers; a statement class without a visit_ method: nothing."""
+    out = []
+    for it in items:
+        if isinstance(it, int):
+            out.append(it)
+        elif it["k"] == "try":
+            by = lambda lab: [x for l, sub in it["parts"] if l == lab for x in registered_order(sub)]
+            out += by("body") + by("else") + by("finally") + by("except")
+        elif it["k"] in DESCENDED_KINDS:
+            out += [x for _, sub in it["parts"] for x in registered_order(sub)]
+    return out
+
+
+def positions(items, prefix=""):
+    """statement index -> its block position, e.g. 'top', 'if.else', 'try.except/if.elif'."""
+    out = {}
+    for it in items:
+        if isinstance(it, int):
+            out[it] = prefix or "top"
+        else:
+            for label, sub in it["parts"]:
+                out.update(positions(sub, (prefix + "/" if prefix else "") + f"{it['k']}.{label}"))
+    return out
+
+
+def opaque_of(pos):
+    """The statement classes on the path of a position that have no visit_ method (by name)."""
+    return sorted({OPAQUE_KINDS[p.split(".")[0]] for p in pos.split("/") if p.split(".")[0] in OPAQUE_KINDS})
+
+
+def lean_tree(items, leaves):
+    """The tree as the Lean model takes it (`Blocks.Blk`): a number = one written import symbol; `if` with
+    elif parts = nested ifs (as in `ast`); for / while = loop; the handlers of a try concatenated."""
+    out = []
+    for it in items:
+        if isinstance(it, int):
+            out += leaves(it)
+            continue
+        k = it["k"]
+        sub = lambda lab: [x for l, s_ in it["parts"] if l == lab for x in lean_tree(s_, leaves)]
+        if k == "if":
+            rest = [(l, s_) for l, s_ in it["parts"][1:]]
+
+            def chain(rest):
+                if not rest:
+                    return []
+                (l, s_), tail = rest[0], rest[1:]
+                if l == "else":
+                    return lean_tree(s_, leaves)
+                return [{"k": "if", "a": lean_tree(s_, leaves), "b": chain(tail)}]
+            out.append({"k": "if", "a": sub("body"), "b": chain(rest)})
+        elif k in ("for", "while"):
+            out.append({"k": "loop", "a": sub("body"), "b": sub("else")})
+        elif k == "with":
+            out.append({"k": "with", "a": sub("body")})
+        elif k == "try":
+            out.append({"k": "try", "a": sub("body"), "b": sub("except"), "c": sub("else"), "d": sub("finally")})
+        else:
+            out.append({"k": "opaque", "a": [x for _, s_ in it["parts"] for x in lean_tree(s_, leaves)]})
+    return out
+
+
+def random_parts(rng, kind, chunk):
+    """Distribute the statements `chunk` (in order) over the parts of one block of `kind`."""
+    if kind == "if":
+        labels = ["body"] + ["elif"] * rng.choice([0, 0, 1, 2]) + (["else"] if rng.random() < 0.7 else [])
+    elif kind in ("for", "while"):
+        labels = ["body"] + (["else"] if rng.random() < 0.6 else [])
+    elif kind in ("with", "class"):
+        labels = ["body"]
+    elif kind == "match":
+        labels = ["case"] * rng.randint(1, 3)
+    else:
+        ne = rng.choice([1, 1, 2]) if kind == "trystar" else rng.choice([0, 1, 1, 2])
+        labels = ["body"] + ["except"] * ne + (["else"] if ne and rng.random() < 0.5 else [])
+        if ne == 0 or rng.random() < 0.4:
+            labels.append("finally")
+    # non-decreasing part index per statement; the rarer parts (not the first) are preferred
+    idx = sorted(rng.choice(list(range(len(labels))) + list(range(1, len(labels)))) for _ in chunk)
+    return [[lab, [c for c, j in zip(chunk, idx) if j == i]] for i, lab in enumerate(labels)]
+
+
+def random_tree(rng, first, n, opaque=None, depth=0):
+    """A random block tree over the statements first..n-1 (in order); `opaque`: a statement class without
+    a visit_ method that may be used as well."""
+    def build(idxs, depth):
+        out, i = [], 0
+        while i < len(idxs):
+            if rng.random() < (0.3 if depth == 0 else 0.55) or depth >= 3:
+                out.append(idxs[i])
+                i += 1
+                continue
+            k = rng.randint(1, min(3, len(idxs) - i))
+            chunk, i = idxs[i:i + k], i + k
+            kinds = list(DESCENDED_KINDS) + ["if", "try"] + ([opaque] * 3 if opaque else [])
+            kind = rng.choice(kinds)
+            parts = random_parts(rng, kind, chunk)
+            out.append({"k": kind, "parts": [[lab, build(sub, depth + 1)] for lab, sub in parts]})
+        return out
+    return list(range(first)) + build(list(range(first, n)), 0)
+
+
 # ------------------------------------------------------------------ generation
 
 def tag_of(name):
@@ -173,7 +355,8 @@ class Gen:
     def add_file(self, root, relpath, name, kind):
         key = (root, relpath)
         if key not in self.files:
-            self.files[key] = {"stmts": [], "symbols": [], "calls": [], "ids": {"f_" + tag_of(name)}, "tag": tag_of(name)}
+            self.files[key] = {"stmts": [], "symbols": [], "calls": [], "ids": {"f_" + tag_of(name)}, "tag": tag_of(name),
+                               "nsyms": [], "tree": None}
         self.names[name] = {"kind": kind, "file": key}
 
     def add_name(self, name, kind, file=None, via=None):
@@ -345,10 +528,13 @@ class Gen:
             # future statements stand before everything else in the file
             a, b = f.get("nf_stmt", 0), f.get("nf_sym", 0)
             f["stmts"].insert(a, stmt)
+            f["nsyms"].insert(a, len(syms))
             f["symbols"][b:b] = syms
             f["nf_stmt"], f["nf_sym"] = a + 1, b + len(syms)
+            assert f["tree"] is None
         else:
             f["stmts"].append(stmt)
+            f["nsyms"].append(len(syms))
             f["symbols"].extend(syms)
         if call and self.rng.random() < 0.85:
             f["calls"].append(call)
@@ -409,7 +595,35 @@ class Gen:
     def source(self, key):
         f = self.files[key]
         body = "".join(f"    {c}\n" for c in f["calls"])
-        return "\n".join(f["stmts"]) + f"\n\ndef f_{f['tag']}(x):\n{body}    return x.attr_{f['tag']}\n"
+        head = "\n".join(f["stmts"]) if f["tree"] is None else "\n".join(render_tree(f["tree"], f["stmts"]))
+        return head + f"\n\ndef f_{f['tag']}(x):\n{body}    return x.attr_{f['tag']}\n"
+
+    def place(self, key, tree):
+        """Put the import statements of file `key` into module-level block positions: `tree` is a list of
+        items over the statement indices (see render_tree); every statement exactly once, in source order;
+        `from __future__` statements stay first at the top level."""
+        f = self.files[key]
+        assert written_order(tree) == list(range(len(f["stmts"]))), (tree, f["stmts"])
+        nf = f.get("nf_stmt", 0)
+        assert tree[:nf] == list(range(nf)), "future statements stand first, at the top level"
+        ast.parse("\n".join(render_tree(tree, f["stmts"])))
+        f["tree"] = tree
+
+    def views(self, key):
+        """(symbols rattr is expected to create, in ITS order; every import symbol WRITTEN in the file, in
+        source order, with its block position; the block tree over the written symbols) of one file."""
+        f = self.files[key]
+        if f["tree"] is None:
+            return f["symbols"], None, None
+        offs, o = [], 0
+        for n in f["nsyms"]:
+            offs.append(o)
+            o += n
+        pos = positions(f["tree"])
+        sl = lambda i: list(range(offs[i], offs[i] + f["nsyms"][i]))
+        reg = [j for i in registered_order(f["tree"]) for j in sl(i)]
+        written = [dict(f["symbols"][j], pos=pos[i]) for i in range(len(f["stmts"])) for j in sl(i)]
+        return [f["symbols"][j] for j in reg], written, {"tree": lean_tree(f["tree"], sl), "reg": reg}
 
     def case(self, level, patterns, target_file=None):
         return {
@@ -420,7 +634,13 @@ class Gen:
             "links": self.links,
             "sp_spell": self.sp_spell,
             "files": {f"{root}/{rel}": self.source((root, rel)) for (root, rel) in self.files},
-            "symbols": {f"{root}/{rel}": f["symbols"] for (root, rel), f in self.files.items()},
+            "symbols": {f"{root}/{rel}": self.views((root, rel))[0] for (root, rel) in self.files},
+            # only for files whose imports stand in block positions: every import symbol written (the
+            # oracle's edges) and the block tree (the model's input)
+            "written": {f"{root}/{rel}": self.views((root, rel))[1] for (root, rel), f in self.files.items()
+                        if f["tree"] is not None},
+            "blocks": {f"{root}/{rel}": self.views((root, rel))[2] for (root, rel), f in self.files.items()
+                       if f["tree"] is not None},
             "names": {n: dict({"kind": i["kind"], "file": (f"{i['file'][0]}/{i['file'][1]}" if i["file"] else None)},
                               **({"via": i["via"]} if i.get("via") else {}))
                       for n, i in self.names.items()},
@@ -551,8 +771,18 @@ def random_case(rng):
     patterns = [] if r < 0.35 else rng.sample(pool, 1 if r < 0.8 else 2)
     if missing and rng.random() < 0.8:
         patterns.append("zz_missing.*")
+    # import statements in module-level block positions (half of the projects; per file 60 %); one
+    # statement class without a visit_ method per project at most (the signature names it)
+    blocks = False
+    if rng.random() < 0.5:
+        opaque = rng.choice(sorted(OPAQUE_KINDS)) if rng.random() < 0.2 else None
+        for key, f in g.files.items():
+            n, nf = len(f["stmts"]), f.get("nf_stmt", 0)
+            if n > nf and rng.random() < 0.6:
+                g.place(key, random_tree(rng, nf, n, opaque))
+                blocks = True
     c = g.case(level, patterns)
-    c["shape"] = {"two_names": two_names, "missing": missing, "nested": bool(nested)}
+    c["shape"] = {"two_names": two_names, "missing": missing, "nested": bool(nested), "blocks": blocks}
     return c
 
 
@@ -777,6 +1007,73 @@ def relative_cases():
                         patterns=[re.escape(c0["_reached"])])
 
 
+def _blk(k, *parts):
+    return {"k": k, "parts": [[lab, list(sub)] for lab, sub in parts]}
+
+
+# name -> tree over the three import statements (0, 1, 2) of the importing file
+BLOCK_TEMPLATES = {
+    "if-else": lambda: [_blk("if", ("body", [0]), ("else", [1])), 2],
+    "if-elif-else": lambda: [_blk("if", ("body", [0]), ("elif", [1]), ("else", [2]))],
+    "if-elif-elif": lambda: [_blk("if", ("body", []), ("elif", [0]), ("elif", [1])), 2],
+    "try-except-else": lambda: [_blk("try", ("body", [0]), ("except", [1]), ("else", [2]))],
+    "try-except-except-finally": lambda: [_blk("try", ("body", []), ("except", [0]), ("except", [1]), ("finally", [2]))],
+    "try-finally": lambda: [0, _blk("try", ("body", [1]), ("finally", [2]))],
+    "with": lambda: [_blk("with", ("body", [0, 1])), 2],
+    "for-else": lambda: [_blk("for", ("body", [0]), ("else", [1])), 2],
+    "while-else": lambda: [0, _blk("while", ("body", [1]), ("else", [2]))],
+    "nested:for-else/try/if-else": lambda: [_blk("for", ("body", []), ("else", [
+        _blk("try", ("body", [_blk("if", ("body", []), ("else", [0]))]), ("except", [1]))])), 2],
+    "nested:with/if-elif/if-else": lambda: [_blk("with", ("body", [
+        _blk("if", ("body", []), ("elif", [_blk("if", ("body", [0]), ("else", [1]))]))])), 2],
+    "nested:if-else/try-finally/while-else": lambda: [_blk("if", ("body", [0]), ("else", [
+        _blk("try", ("body", []), ("finally", [_blk("while", ("body", [1]), ("else", [2]))]))]))],
+    # statement classes RootContextBuilder has no visit_ method for
+    "match": lambda: [_blk("match", ("case", [0]), ("case", [1])), 2],
+    "trystar": lambda: [_blk("trystar", ("body", [0]), ("except", [1])), 2],
+    "class": lambda: [0, _blk("class", ("body", [1])), 2],
+    "nested:if-else/match": lambda: [0, _blk("if", ("body", []), ("else", [_blk("match", ("case", [1]))])), 2],
+}
+
+
+def block_cases():
+    """Import statements in every module-level block position (if / elif / else, try / except / else /
+    finally, with, for / else, while / else, nested three deep; and inside `match`, `try ... except*`, a class
+    body) x the importing file being the target / a followed import x statement form. The three modules
+    imported there are reachable through these statements only; lm3 imports pq1 (pip) plainly, so that at
+    level 2 something lies BEHIND a module imported in a block."""
+    for name, tpl in BLOCK_TEMPLATES.items():
+        for where in ("target", "followed-import"):
+            for form, level in (("from", 1), ("import", 2)):
+                if form == "import" and not (name.startswith("nested") or name in ("if-else", "try-except-else", "match")):
+                    continue
+                g = Gen(random.Random(0))
+                t = ("proj", "target.py")
+                g.add_file(*t, "target", "local")
+                for i in range(4):
+                    g.add_file("proj", f"lm{i}.py", f"lm{i}", "local")
+                g.add_file("sp", "pq1.py", "pq1", "pip")
+                holder = t if where == "target" else ("proj", "lm0.py")
+                if where != "target":
+                    g.add_import(t, "lm0", form="from")
+                for i in (1, 2, 3):
+                    g.add_import(holder, f"lm{i}", form=form)
+                g.add_import(("proj", "lm3.py"), "pq1", form="from")
+                first = len(g.files[holder]["stmts"]) - 3
+                shift = lambda items: [x + first if isinstance(x, int) else
+                                       {"k": x["k"], "parts": [[l, shift(s_)] for l, s_ in x["parts"]]} for x in items]
+                g.place(holder, list(range(first)) + shift(tpl()))
+                g.files[("proj", "lm3.py")]["calls"] = ["f_pq1(x)"]
+                g.files[holder]["calls"] = [f"f_lm{i}(x)" if form == "from" else f"lm{i}.f_lm{i}(x)" for i in (1, 2, 3)]
+                if where != "target":
+                    g.files[t]["calls"] = ["f_lm0(x)"]
+                c = g.case(level, [])
+                c["shape"] = {"two_names": False, "missing": False, "corpus": f"block:{name}:{where}:{form}:f{level}",
+                              "cli": where == "target" and form == "from" and name in
+                              ("if-else", "if-elif-else", "try-except-else", "for-else", "nested:for-else/try/if-else", "match")}
+                yield c
+
+
 def enumerated_cases(nodes):
     """Every import graph over the fixed nodes (target + locals + one pip module), one import form,
     x levels x 3 pattern sets."""
@@ -817,6 +1114,41 @@ LEVEL_CHANNELS = ["direct",                     # Arguments(...) built by the ha
                   "toml:-c-missing-file",       # -c names no file: ./pyproject.toml applies
                   "toml+cli",                   # ./pyproject.toml says M, the command line says N
                   "default"]                    # nothing anywhere: level 1
+# Configuration DISCOVERY: which pyproject.toml is "the project's". Four directories, nearest first: D0 = the
+# working directory (proj), D1 = its parent, D2, D3; each carries one marker:
+#   "-" nothing | "inner" pyproject.toml with the [tool.rattr] table that must apply | "other" a pyproject.toml of
+#   some other project ([tool.rattr] with another level and the pattern '.*') | "no-table" a pyproject.toml
+#   without [tool.rattr] | "git" .git/ | "git-file" .git as a file (worktree, submodule) | "hg" .hg/ | "svn" .svn/
+#   | "hg-file" / "svn-file" (a FILE of that name marks nothing) | "git+other"
+# [interp] the project root is the NEAREST directory at or above the working directory that has a
+# pyproject.toml, .git (directory or file), .hg/ or .svn/ (rattr's `find_project_root`, the convention of
+# black / isort / pytest's rootdir); its pyproject.toml, if any, is the project's. Layouts named
+# `nested:…` have `inner` as that nearest root (the level and patterns come from its table); layouts
+# named `nested-none:…` have a nearest root WITHOUT a [tool.rattr] table above which another project's table
+# lies: no TOML applies (level and patterns through the command line, or the defaults).
+NESTED_LAYOUTS = {
+    "nested:inner@cwd<git": ["inner", "-", "git", "-"],
+    "nested:inner@cwd<other": ["inner", "other", "-", "git"],
+    "nested:inner@parent<git": ["-", "inner", "git", "-"],
+    "nested:inner@parent<other": ["-", "inner", "other", "-"],
+    "nested:inner@parent<-<git+other": ["-", "inner", "-", "git+other"],
+    "nested:inner@parent<hg<other": ["-", "inner", "hg", "other"],
+    "nested:inner@parent<svn": ["-", "inner", "-", "svn"],
+    "nested:inner@parent<git-file": ["-", "inner", "git-file", "-"],
+    "nested:inner@grandparent<git": ["-", "-", "inner", "git"],
+    "nested:inner@grandparent<other": ["hg-file", "-", "inner", "other"],
+    "nested:hg-file@parent<inner<other": ["-", "hg-file", "inner", "other"],
+    "nested-none:no-table@parent<other": ["-", "no-table", "other", "-"],
+    "nested-none:git@parent<other": ["-", "git", "other", "-"],
+    "nested-none:git-file@cwd<other": ["git-file", "other", "-", "-"],
+    "nested-none:svn@grandparent<git+other": ["svn-file", "-", "svn", "git+other"],
+}
+NEST = "outer/api"                   # D1 = <case dir>/outer/api, D2 = <case dir>/outer, D3 = <case dir>
+LEVEL_CHANNELS += list(NESTED_LAYOUTS)
+ROOT_MARKERS = ("inner", "other", "no-table", "git", "git-file", "hg", "svn", "git+other")
+MARKER_FILES = {"git": {".git/HEAD": "ref: refs/heads/main\n"}, "git-file": {".git": "gitdir: /nowhere/.git/worktrees/x\n"},
+                "hg": {".hg/requires": "store\n"}, "svn": {".svn/format": "12\n"},
+                "hg-file": {".hg": "x\n"}, "svn-file": {".svn": "x\n"}}
 PATTERN_CHANNELS = ["cli:-F", "cli:--exclude-import", "toml", "split"]
 TOML_SPELLINGS = ["plain", "quoted-key", "dotted-table", "inline-table", "nospace", "plus", "hex", "oct", "bin"]
 NONCANONICAL = ("cli:--follow-imports=", "cli:-fN")     # argparse tokeniser: outside the Lean CLI model
@@ -868,7 +1200,12 @@ def deliver(level, patterns, ch):
     k = len(patterns)
     toml_pats = patterns if pvia == "toml" else (patterns[: (k + 1) // 2] if pvia == "split" else [])
     cli_pats = patterns[len(toml_pats):]
-    if via in ("toml:pyproject", "toml:parent-dir", "toml:-c", "toml:--config", "toml:-c-missing-file"):
+    nested = NESTED_LAYOUTS.get(via)
+    if nested and "inner" not in nested[:1 + next(i for i, m in enumerate(nested) if m in ROOT_MARKERS)]:
+        pvia = pvia if pvia.startswith("cli:") else "cli:-F"        # no TOML table applies in this layout
+        toml_pats, cli_pats = [], list(patterns)
+    if via in ("toml:pyproject", "toml:parent-dir", "toml:-c", "toml:--config", "toml:-c-missing-file") \
+            or via.startswith("nested:"):
         sel.append(("follow-imports", level))
     elif via == "toml+cli":
         sel.append(("follow-imports", other))
@@ -891,10 +1228,13 @@ def deliver(level, patterns, ch):
         argv += ["-f", str(other), "--follow-imports", str(level)]
     elif via == "toml+cli":
         argv += ["-f", str(level)]
+    elif via.startswith("nested-none:") and level != 1:
+        argv += ["-f", str(level)]
     for p in cli_pats:
         argv += ["--exclude-import" if pvia == "cli:--exclude-import" else "-F", p]
     aux, world = {}, {"cwd": {"vcs": False, "pyproject": None}, "parents": [{"vcs": False, "pyproject": None}],
                       "override": None}
+    markers, foreign = {}, {}        # VCS marker files; TOML files of the nested layouts -> their [tool.rattr] entries
     if via in ("toml:-c", "toml:--config"):
         unsel = [("follow-imports", other)]
         aux["proj/conf/alt.toml"] = toml_text(sel, spelling)
@@ -904,12 +1244,31 @@ def deliver(level, patterns, ch):
     elif via == "toml:parent-dir":
         aux["pyproject.toml"] = toml_text(sel, spelling)
         world["parents"][0]["pyproject"] = toml_model(sel)
+    elif nested:
+        if via.startswith("nested-none:"):
+            sel = []
+        oth = [("follow-imports", other), ("exclude-imports", [".*"])]
+        dirs = []
+        for depth, mark in enumerate(nested):
+            pre = ["proj/", "", "../", "../../"][depth]
+            toml = {"inner": sel, "other": oth, "git+other": oth, "no-table": None}.get(mark, False)
+            if toml is not False:
+                aux[pre + "pyproject.toml"] = toml_text(toml, spelling if mark == "inner" else "plain") if toml is not None \
+                    else "[project]\nname = 'x'\n\n[tool.black]\nline-length = 100\n"
+                foreign[pre + "pyproject.toml"] = toml or []
+            for rel, text in MARKER_FILES.get(mark.split("+")[0], {}).items():
+                markers[pre + rel] = text
+            # the Lean world: `vcs` = a marker `_is_project_root` accepts (by the documented rule)
+            dirs.append({"vcs": mark.split("+")[0] in ("git", "git-file", "hg", "svn"),
+                         "pyproject": None if toml is False else toml_model(toml or [])})
+        world["cwd"], world["parents"] = dirs[0], dirs[1:]
     elif sel:
         aux["proj/pyproject.toml"] = toml_text(sel, spelling)
         world["cwd"]["pyproject"] = toml_model(sel)
         if via == "toml:-c-missing-file":
             argv = ["-c", "conf/nope.toml"] + argv
-    says = {"cli": ([other, level] if via == "cli:last-wins" else [level] if via.startswith("cli:") or via == "toml+cli" else []),
+    says = {"cli": ([other, level] if via == "cli:last-wins" else [level] if via.startswith("cli:") or via == "toml+cli"
+                    or (via.startswith("nested-none:") and level != 1) else []),
             "toml": next((v for k_, v in sel if k_ == "follow-imports"), None),
             "toml_patterns": list(toml_pats), "cli_patterns": list(cli_pats)}
     model = None if via in NONCANONICAL else {"world": world, "argv": argv + ["target.py"], "says": says}
@@ -917,9 +1276,12 @@ def deliver(level, patterns, ch):
     import tomllib
     for rel, text in aux.items():
         want = dict(unsel) if (unsel is not None and rel == "proj/pyproject.toml") else dict(sel)
+        if rel in foreign:
+            want = dict(foreign[rel])
         got = tomllib.loads(text).get("tool", {}).get("rattr", {})
         assert got == want, (rel, text, want)
-    return {"argv": argv, "aux_files": aux, "model": model,
+    aux.update(markers)
+    return {"argv": argv, "aux_files": aux, "model": model, "nest": NEST if nested else None,
             "selected": [[k_, v_] for k_, v_ in sel], "toml_spelling": spelling}
 
 
@@ -936,6 +1298,8 @@ def set_channel(case, ch):
     case["channel"] = ch
     case["argv"], case["aux_files"], case["cli_model"] = d["argv"], d["aux_files"], d["model"]
     case["toml_selected"] = d["selected"]
+    if d.get("nest"):
+        case["nest"] = d["nest"]
     return case
 
 
@@ -1003,7 +1367,10 @@ def tgt_arg(case):
 
 class Project:
     def __init__(self, base, idx, case):
-        self.root = Path(base) / f"c{idx}"
+        self.top = Path(base) / f"c{idx}"
+        # `nest`: directories between the case's directory and the root of the generated tree (configuration
+        # discovery: project-root markers in the directories ABOVE the working directory)
+        self.root = self.top / case.get("nest", "") if case.get("nest") else self.top
         self.proj = self.root / "proj"
         self.sp = self.root / "sp" / "site-packages"
         self.case = case
@@ -1058,7 +1425,7 @@ class Project:
         return os.path.relpath(r, str(self.root)) if r.startswith(str(self.root) + os.sep) else r
 
     def cleanup(self):
-        shutil.rmtree(self.root, ignore_errors=True)
+        shutil.rmtree(self.top, ignore_errors=True)
 
 
 # ------------------------------------------------------------------ implementation side (in-process)
@@ -1248,13 +1615,30 @@ def permitted_indep(case, name):
     return {"local": lvl >= 1, "pip": lvl >= 2, "stdlib": lvl >= 3}.get(k, False)
 
 
-def oracle_reach(case):
+def written_syms(case, rel):
+    """Every import symbol WRITTEN in a file, wherever it stands at module level (source order)."""
+    return (case.get("written") or {}).get(rel) or case["symbols"][rel]
+
+
+def oracle_reach(case, only_descended=False):
+    """The property's closure over every import statement written at module level (block positions
+    included: Python may execute each of them). `only_descended`: without the statements that stand inside
+    a statement class RootContextBuilder has no visit_ method for (by construction of the position)."""
+    keep = (lambda s: not opaque_of(s.get("pos", "top"))) if only_descended else (lambda s: True)
     imports_of = {}
     for n, i in case["names"].items():
         if i["file"] is not None:
-            imports_of[n] = [s["intended"] for s in case["symbols"][i["file"]]]
-    tgt = [s["intended"] for s in case["symbols"][tgt_key(case)]]
+            imports_of[n] = [s["intended"] for s in written_syms(case, i["file"]) if keep(s)]
+    tgt = [s["intended"] for s in written_syms(case, tgt_key(case)) if keep(s)]
     return closure(imports_of, tgt, lambda n: permitted_indep(case, n))
+
+
+def lost_behind(case, want, lost):
+    """The statement classes without a visit_ method (by construction of the positions) inside which the
+    import statements stand that lead from the files of `want` (and the target) to the modules `lost`."""
+    files = {tgt_key(case)} | {file_of(case, n) for n in want if file_of(case, n)}
+    return sorted({k for rel in files for s in written_syms(case, rel)
+                   if s["intended"] in lost for k in opaque_of(s.get("pos", "top"))})
 
 
 # ------------------------------------------------------------------ judge
@@ -1314,6 +1698,7 @@ def judge(case, obs):
         return out  # fatal = rattr's own diagnostic; crashes are handled by the caller
     lvl = case["level"]
     want = oracle_reach(case)
+    want_desc = oracle_reach(case, only_descended=True)
     got = obs["keys"]
     gotset = set(got)
     for n in got:
@@ -1349,9 +1734,15 @@ def judge(case, obs):
             sig = "second-name-of-analysed-file-missing-from-import-irs"
         elif mis is not None:
             sig = "module-misclassified:" + mis + ":not-analysed"
+        elif n not in want_desc and lost_behind(case, want, want - want_desc):
+            # by construction every chain of imports to it passes a statement inside match / try-star / class body
+            sig = "permitted-module-not-analysed:reachable-only-through-imports-inside:" \
+                  + "+".join(lost_behind(case, want, want - want_desc))
         else:
             sig = f"permitted-{kind_indep(case, n)}-module-not-analysed"
-        out.append({"signature": sig, "module": n})
+        out.append({"signature": sig, "module": n,
+                    "imported_at": sorted({f"{rel}:{sy['pos']}" for rel in (case.get("written") or {})
+                                           for sy in case["written"][rel] if sy["intended"] == n})})
     # each once: analyses per REAL file (the target file once more as the target itself). A file is
     # identified by os.path.realpath of what rattr opened, never by rattr's spelling of the path.
     ev = obs.get("events_real", obs["events"])
@@ -1461,9 +1852,11 @@ def project_payload(case):
     """The project as the edge model (RattrModel/ImportEdges.lean) takes it, all by construction: the
     dotted names that are modules, and per generated file its name, whether it is an `__init__.py`, and
     its import statements as data (level, module part, imported name)."""
+    blocks = case.get("blocks") or {}
     return {"exists": [n for n, i in case["names"].items() if i["kind"] != "missing"],
-            "files": [{"base": primary_name(case, rel), "isInit": rel.endswith("/__init__.py"),
-                       "stmts": [dict(sy["stmt"]) for sy in case["symbols"][rel]]}
+            "files": [dict({"base": primary_name(case, rel), "isInit": rel.endswith("/__init__.py"),
+                            "stmts": [dict(sy["stmt"]) for sy in case["symbols"][rel]]},
+                           **({"blocks": blocks[rel]["tree"]} if rel in blocks else {}))
                       for rel in case["files"]]}
 
 
@@ -1483,6 +1876,35 @@ def check_edges(res, case, obs, mo, shown):
         return True
     rels = list(case["files"])
     by_rel = dict(zip(rels, edges))
+    # block positions: the Lean model of register_stmts (`Blocks.regL`) on the file's block tree vs the
+    # harness' mirror (the order case["symbols"] was written in); the theorems' instances
+    for rel, bo in zip(rels, mo.get("blockOrders") or []):
+        if bo is None:
+            continue
+        w = case["written"][rel]
+        if bo["reg"] != case["blocks"][rel]["reg"] or bo["written"] != list(range(len(w))):
+            res.internal_errors.append({"what": "Lean Blocks.regL / writtenL != the harness' mirror of register_stmts",
+                                        "file": rel, "lean": bo, "harness": case["blocks"][rel], "case": shown})
+            return None
+        if bo["descended"] != (not any(opaque_of(sy["pos"]) for sy in w)):
+            res.internal_errors.append({"what": "Lean Blocks.descendedL != the positions by construction",
+                                        "file": rel, "lean": bo, "case": shown})
+            return None
+        if bo["descended"] and sorted(bo["reg"]) != bo["written"]:
+            res.internal_errors.append({"what": "theorem C12_every_block_position_is_an_edge contradicted by the driver",
+                                        "file": rel, "lean": bo, "case": shown})
+            return None
+        if not set(bo["reg"]) <= set(bo["written"]):
+            res.internal_errors.append({"what": "theorem C12_registered_are_written contradicted by the driver",
+                                        "file": rel, "lean": bo, "case": shown})
+            return None
+        res.count("theorem-instance:C12_every_block_position_is_an_edge" if bo["descended"]
+                  else "block-tree-with-undescended-statement-class")
+        for sy in w:
+            for part in sy["pos"].split("/"):
+                res.count("import-position:" + part)
+            if "/" in sy["pos"]:
+                res.count(f"import-position:nested-depth{sy['pos'].count('/') + 1}")
     for rel in rels:
         for sy, e in zip(case["symbols"][rel], by_rel[rel]):
             st = sy["stmt"]
@@ -1570,7 +1992,7 @@ def graph_shape(facts):
 
 
 CASE_KEYS = ("target_file", "level", "patterns", "extra_path", "links", "sp_spell", "files", "symbols", "names", "channel", "argv",
-             "aux_files", "cli_model", "toml_selected")
+             "aux_files", "cli_model", "toml_selected", "written", "blocks", "nest")
 
 
 def evaluate(res, case, obs, mo, cli=None):
@@ -1607,8 +2029,19 @@ def evaluate(res, case, obs, mo, cli=None):
     # the generator's expectation of the target's Import symbols must be what rattr built
     exp_q = [s["qualified"] for s in case["symbols"][tgt_key(case)]]
     if lvl > 0 and obs["outcome"] in ("ok",) and obs["queue0"] != exp_q:
-        res.skipped_outside_fragment += 1
-        res.count("skipped:import-symbols-differ-from-generator-expectation")
+        # the root context of the target is not what the generator (and the model) expect. If the property
+        # oracle — which knows nothing of that expectation — objects to the run, that is the verdict;
+        # otherwise the case is outside the fragment.
+        vs = judge(case, obs)
+        for v in vs:
+            res.count("verdict:" + v["signature"].split(":")[0])
+            res.violations.append({"signature": v["signature"], "case": shown, "detail": v,
+                                   "impl": {k: obs.get(k) for k in ("outcome", "keys", "events", "results", "queue0")},
+                                   "expected_import_symbols_of_target": exp_q,
+                                   "spec_reach": sorted(oracle_reach(case))})
+        if not vs:
+            res.skipped_outside_fragment += 1
+            res.count("skipped:import-symbols-differ-from-generator-expectation")
         return
     if "__error__" in mo:
         res.internal_errors.append({"what": "driver error", "detail": mo, "case": shown})
@@ -1810,11 +2243,19 @@ def run(tier, seed, build):
                 "package), the chain also inside site-packages and with the reached module excluded; 40 % of the random "
                 "projects contain such a chain (1-4 packages, local or pip) with relative imports of every level its "
                 "files allow. Per analysed file the Import symbols rattr built are compared with the Lean edge model. "
+                "Block positions: import statements inside if/elif/else, try/except/else/finally, with, for/else, "
+                "while/else (nested up to 4 deep; also match, try/except*, class bodies) in the target and in followed "
+                "modules: a corpus of 16 templates x target / followed import x statement form, and half of the random "
+                "projects (60 % of their files); every written import is an edge of the oracle, the registration order "
+                "is the Lean model Blocks.regL. Configuration discovery: 15 layouts of nested project roots (inner "
+                "pyproject.toml at the cwd / its parent / grand-parent below .git, .git file, .hg, .svn, another "
+                "project's pyproject.toml; nearest root without [tool.rattr]) x level 0..3 in the channel matrix "
+                "(in-process and real CLI) and among the random channels. "
                 "non-trivial = distinct case whose target imports at least one locatable module")
     rng = random.Random(seed)
-    n_random, n_cli = (400, 16) if tier == "quick" else (800, 30)
+    n_random, n_cli = (360, 16) if tier == "quick" else (800, 30)
     cases = list(corpus_cases()) + list(alias_cases()) + list(channel_cases()) + list(stdlib_universe_cases()) \
-        + list(relative_cases())
+        + list(relative_cases()) + list(block_cases())
     N_CORPUS = len(cases)
     if tier == "quick":
         cases += list(enumerated_cases(["target", "lm0", "pq1"]))
@@ -1892,6 +2333,9 @@ def run(tier, seed, build):
         "level-3 runs that reach a built-in / frozen / extension stdlib module crash in read() (C07-K8); counted as outside the fragment",
         "ground truth for the module a relative import statement reaches: importlib.util.resolve_name(dots + module part, package of the importing file), then the longest prefix of <that>.<imported name> that is a module of the generated project; the Lean spec Edges.pyQualified / pyTarget is compared with it on every statement of every case",
         "[interp] a run that ends in rattr's `fatal` although every module imported anywhere in the project exists is a violation ('every permitted module reachable ... is analysed'): signature other:fatal-although-every-imported-module-exists; with an unlocatable module in the project a fatal is rattr's documented answer and is not judged",
+        "[interp] every import statement at module level is an edge of the import graph wherever it stands (the branches of if / try / with / for / while / match, try-except*, a class body): Python executes it when it imports the module. rattr rejects imports inside FUNCTIONS loudly (fatal 'imports must be at the top level'); those are never generated",
+        "the ORDER in which a file's Import symbols are registered (and so enqueued) is rattr's (a try statement registers body, else, finally, then the handlers): harness mirror `registered_order`, cross-checked per case with the Lean model Blocks.regL; the oracle uses only the SET of written imports",
+        "[interp] the project's pyproject.toml is that of the NEAREST directory at or above the working directory that has a pyproject.toml, .git (directory or file), .hg/ or .svn/ (find_project_root's rule; README's configuration section does not say how the file is found); if that root has no pyproject.toml or no [tool.rattr] table, no TOML applies. A pyproject.toml of an outer project is never read",
         "the edge model takes the importing file's module name (derive_module_name_from_path) by construction — the name the file was generated for; C13 covers the path -> name round trip. Relative imports are not written in files reachable under a second PACKAGE name (symlinked package directory)",
     ]
     return res
